@@ -162,26 +162,50 @@ def isAny (groups : List String) (host : String) (cidr : CidrSel) : Bool :=
   (groups.length == 0 && decide (host = "") && decide (cidr = .none))
     || groups.contains "any" || decide (host = "any") || decide (cidr = .any)
 
+/-- `FirewallRule.addRule`, the `len(groups) > 0` block: a new `firewallGroups` entry is appended. -/
+def FRule.addGroups (cfg : Cfg) (fr : FRule) (groups : List String) (localCidr : CidrSel) : FRule :=
+  if groups.length > 0 then
+    { fr with groups := fr.groups ++ [{ groups := groups, lc := LocalCIDR.addRule cfg {} localCidr }] }
+  else fr
+
+/-- `FirewallRule.addRule`, the `host != ""` block: get-or-create `Hosts[host]`, extend, store. -/
+def FRule.addHost (cfg : Cfg) (fr : FRule) (host : String) (localCidr : CidrSel) : FRule :=
+  if host ≠ "" then
+    let nlc := ((aget sameStr fr.hosts host).getD {}).addRule cfg localCidr
+    { fr with hosts := aset sameStr fr.hosts host nlc }
+  else fr
+
+/-- `FirewallRule.addRule`, the `cidr != ""` block: `CIDR.Get(c)`-or-create, extend, `CIDR.Insert(c, …)`. -/
+def FRule.addCidr (cfg : Cfg) (fr : FRule) (cidr localCidr : CidrSel) : FRule :=
+  match cidr with
+  | .pfx c =>
+    let nlc := ((aget samePfx fr.cidr c).getD {}).addRule cfg localCidr
+    { fr with cidr := aset samePfx fr.cidr c nlc }
+  | _ => fr
+
 /-- `FirewallRule.addRule` -/
 def FRule.addRule (cfg : Cfg) (fr : FRule) (groups : List String) (host : String) (cidr localCidr : CidrSel) :
     FRule :=
   if isAny groups host cidr then
     { fr with any := some ((fr.any.getD {}).addRule cfg localCidr) }
   else
-    let fr1 : FRule :=
-      if groups.length > 0 then
-        { fr with groups := fr.groups ++ [{ groups := groups, lc := LocalCIDR.addRule cfg {} localCidr }] }
-      else fr
-    let fr2 : FRule :=
-      if host ≠ "" then
-        let nlc := ((aget sameStr fr1.hosts host).getD {}).addRule cfg localCidr
-        { fr1 with hosts := aset sameStr fr1.hosts host nlc }
-      else fr1
-    match cidr with
-    | .pfx c =>
-      let nlc := ((aget samePfx fr2.cidr c).getD {}).addRule cfg localCidr
-      { fr2 with cidr := aset samePfx fr2.cidr c nlc }
-    | _ => fr2
+    ((fr.addGroups cfg groups localCidr).addHost cfg host localCidr).addCidr cfg cidr localCidr
+
+/-- `FirewallCA.addRule`, the `caSha != ""` block. -/
+def FCA.addSha (cfg : Cfg) (fc : FCA) (groups : List String) (host : String) (cidr localCidr : CidrSel)
+    (caSha : String) : FCA :=
+  if caSha ≠ "" then
+    let t := ((aget sameStr fc.caShas caSha).getD {}).addRule cfg groups host cidr localCidr
+    { fc with caShas := aset sameStr fc.caShas caSha t }
+  else fc
+
+/-- `FirewallCA.addRule`, the `caName != ""` block. -/
+def FCA.addName (cfg : Cfg) (fc : FCA) (groups : List String) (host : String) (cidr localCidr : CidrSel)
+    (caName : String) : FCA :=
+  if caName ≠ "" then
+    let t := ((aget sameStr fc.caNames caName).getD {}).addRule cfg groups host cidr localCidr
+    { fc with caNames := aset sameStr fc.caNames caName t }
+  else fc
 
 /-- `FirewallCA.addRule` -/
 def FCA.addRule (cfg : Cfg) (fc : FCA) (groups : List String) (host : String) (cidr localCidr : CidrSel)
@@ -189,15 +213,7 @@ def FCA.addRule (cfg : Cfg) (fc : FCA) (groups : List String) (host : String) (c
   if caSha = "" ∧ caName = "" then
     { fc with any := some ((fc.any.getD {}).addRule cfg groups host cidr localCidr) }
   else
-    let fc1 : FCA :=
-      if caSha ≠ "" then
-        let t := ((aget sameStr fc.caShas caSha).getD {}).addRule cfg groups host cidr localCidr
-        { fc with caShas := aset sameStr fc.caShas caSha t }
-      else fc
-    if caName ≠ "" then
-      let t := ((aget sameStr fc1.caNames caName).getD {}).addRule cfg groups host cidr localCidr
-      { fc1 with caNames := aset sameStr fc1.caNames caName t }
-    else fc1
+    (fc.addSha cfg groups host cidr localCidr caSha).addName cfg groups host cidr localCidr caName
 
 /-- `firewallPort.addRule` after its `startPort > endPort` guard: every key in `[startPort, endPort]` gets
 (its existing or a fresh `FirewallCA`).addRule. -/
@@ -264,6 +280,12 @@ def FRule.matches (fr : Option FRule) (p : Packet) (c : Cert) : Bool :=
         | none => false)
     || (supernets fr.cidr (hostPrefix p.remoteAddr)).any (fun e => LocalCIDR.matches (some e.2) p)
 
+/-- the tail of `FirewallCA.match`: `caPool.GetCAForCert` (error ⇒ false), then `CANames[ca name].match`. -/
+def FCA.nameMatches (fc : FCA) (p : Packet) (pr : Peer) : Bool :=
+  match caNameFor pr.pool pr.cert.issuer with
+  | none => false
+  | some n => FRule.matches (aget sameStr fc.caNames n) p pr.cert
+
 /-- `FirewallCA.match` -/
 def FCA.matches (fc : Option FCA) (p : Packet) (pr : Peer) : Bool :=
   match fc with
@@ -273,9 +295,7 @@ def FCA.matches (fc : Option FCA) (p : Packet) (pr : Peer) : Bool :=
     else if (match aget sameStr fc.caShas pr.cert.issuer with
              | some t => FRule.matches (some t) p pr.cert
              | none => false) then true
-    else match caNameFor pr.pool pr.cert.issuer with
-      | none => false
-      | some n => FRule.matches (aget sameStr fc.caNames n) p pr.cert
+    else fc.nameMatches p pr
 
 /-- `firewallPort.match` -/
 def FPort.matches (fp : FPort) (p : Packet) (incoming : Bool) (pr : Peer) : Bool :=
@@ -300,7 +320,7 @@ def Table.matches (t : Table) (p : Packet) (incoming : Bool) (pr : Peer) : Bool 
 /-- `NewFirewall`: `routableNetworks` = own addresses as full-length prefixes + own unsafe networks. -/
 def routableOf (my : Cert) : Lite :=
   my.unsafeNetworks.foldl Lite.insert
-    (my.networks.foldl (fun t n => t.insert (hostPrefix n.addr)) [])
+    (my.networks.foldl (fun t n => Lite.insert t (hostPrefix n.addr)) [])
 
 def cfgOf (my : Cert) (defaultLocalCIDRAny : Bool) : Cfg :=
   { defaultLocalCIDRAny := defaultLocalCIDRAny, assignedNetworks := my.networks,
@@ -319,16 +339,23 @@ structure Host where
   networks : Option (List (Prefix × NetType))
   deriving Repr
 
-/-- `HostInfo.buildNetworks(myVpnNetworksTable, c)`; `none` is the "simple case, no BART needed". -/
+/-- the guard at the top of `buildNetworks`: exactly one network, no unsafe networks, and that one address is
+inside the node's own networks ("simple case, no BART needed"). -/
+def simpleCase (myVpnNetworks : Lite) (c : Cert) : Bool :=
+  match c.networks, c.unsafeNetworks with
+  | [n], [] => anyContains myVpnNetworks n.addr
+  | _, _ => false
+
+/-- the table half of `buildNetworks`: every certified address as a full-length prefix typed VPN (inside the
+node's networks) or VPNPeer (outside), then every unsafe network typed Unsafe (same key ⇒ overwritten). -/
+def networksTable (myVpnNetworks : Lite) (c : Cert) : List (Prefix × NetType) :=
+  let t := c.networks.foldl (fun t n =>
+    aset samePfx t (hostPrefix n.addr) (if anyContains myVpnNetworks n.addr then NetType.vpn else NetType.vpnPeer)) []
+  c.unsafeNetworks.foldl (fun t n => aset samePfx t n NetType.unsafeNet) t
+
+/-- `HostInfo.buildNetworks(myVpnNetworksTable, c)`; `none` is the simple case (`networks` stays nil). -/
 def buildNetworks (myVpnNetworks : Lite) (c : Cert) : Option (List (Prefix × NetType)) :=
-  if c.networks.length == 1 && c.unsafeNetworks.length == 0
-      && (match c.networks with
-          | n :: _ => anyContains myVpnNetworks n.addr
-          | [] => false) then none
-  else
-    let t := c.networks.foldl (fun t n =>
-      aset samePfx t (hostPrefix n.addr) (if anyContains myVpnNetworks n.addr then NetType.vpn else NetType.vpnPeer)) []
-    some (c.unsafeNetworks.foldl (fun t n => aset samePfx t n NetType.unsafeNet) t)
+  if simpleCase myVpnNetworks c then none else some (networksTable myVpnNetworks c)
 
 /-- the handshake's `validatePeerCert` sets `vpnAddrs[i] = Networks()[i].Addr()`, then `buildNetworks`. -/
 def hostOf (myVpnNetworks : Lite) (c : Cert) : Host :=
@@ -343,21 +370,23 @@ inductive Verdict where
   | panicIndex      -- `h.vpnAddrs[0]` on an empty slice
   deriving DecidableEq, Repr
 
+/-- the remote-address check at the top of `Firewall.Drop`; `none` = passed. -/
+def remoteCheck (h : Host) (p : Packet) : Option Verdict :=
+  match h.networks with
+  | none =>
+    match h.vpnAddrs with
+    | [] => some .panicIndex
+    | a :: _ => if a ≠ p.remoteAddr then some .invalidRemote else none
+  | some tbl =>
+    match lpm tbl p.remoteAddr with
+    | none => some .invalidRemote
+    | some .vpn => none
+    | some .vpnPeer => some .peerRejected
+    | some .unsafeNet => none
+
 /-- the two address checks at the top of `Firewall.Drop`; `none` = both passed. -/
 def addrCheck (routable : Lite) (h : Host) (p : Packet) : Option Verdict :=
-  let remote : Option Verdict :=
-    match h.networks with
-    | none =>
-      match h.vpnAddrs with
-      | [] => some .panicIndex
-      | a :: _ => if a ≠ p.remoteAddr then some .invalidRemote else none
-    | some tbl =>
-      match lpm tbl p.remoteAddr with
-      | none => some .invalidRemote
-      | some .vpn => none
-      | some .vpnPeer => some .peerRejected
-      | some .unsafeNet => none
-  match remote with
+  match remoteCheck h p with
   | some v => some v
   | none => if !anyContains routable p.localAddr then some .invalidLocal else none
 
